@@ -14,6 +14,10 @@ CLAIMS = {
    text="Static decision of representation-invariant clauses of the simplex tree that the read interfaces depend on: (R1) every creation of nodes is followed on every path by registration in the label lists, (R2) every path that destroys nodes or a Siblings updates dimension_/dimension_to_be_lowered_ (flag and remove_if-predicate idioms understood, helper obligations moved to callers), (R3) every user-callable creating function can raise dimension_, (R4) leaf convention on delete/new Siblings. Necessary conditions only; the content of the tree is not decided.",
    note="Trusted: clang 14 parser/Sema, class-local call resolution by name, tables/c01.json (one exempt function with reason). Throwing paths carry no obligation.",
    tech="static analysis: structured path rules with class-local may/must effect summaries (E2/E2g)", ref="DESIGN.md 4/C01"),
+ "C10": dict(
+   text="Static decision of arithmetic-safety and refusal clauses of the coefficient-field classes: a symbolic range interpreter (linear forms over the modulus and the operands, exact Fourier-Motzkin, Houdini loop invariants) proves for every modulus in the stated range and all reduced operands that no intermediate of _add/_subtract/_multiply, the fused operations and get_value/_get_value (all instantiated integer types) wraps harmfully, overflows or converts a possibly negative value to unsigned before % or a comparison, and that every result is again in [0, modulus); run-time setters refuse 0, 1 and composites and do not depend on the previous state; the compile-time primality test is decided by compile-fail witnesses and its sibling copies must agree. Extended-Euclid inverses, the inverse-table loop bounds and GMP multi-field values are not decided.",
+   note="Trusted: clang 14 Sema (implicit conversions as in the AST), contracts in tables/c10.json (each helper contract is verified on the helper itself), operands reduced as the property states. Documented overflow-unsafe fused operations are listed in known_findings.json.",
+   tech="abstract interpretation (linear forms + Fourier-Motzkin) over the clang AST, path rules, compile-fail witnesses", ref="DESIGN.md 4/C10"),
 }
 
 NA = {
